@@ -271,8 +271,25 @@ def F18():
     return None
 
 
+def F19():
+    # one of his own cards named twice when a player tables his hand: not recommended (refused with warnings as errors)
+    s = NoLimitTexasHoldem.create_state((A.ANTE_POSTING, A.BET_COLLECTION, A.BLIND_OR_STRADDLE_POSTING, A.CARD_BURNING,
+                                         A.HOLE_DEALING, A.BOARD_DEALING), True, 0, (1, 2), 2, (100, 100), 2)
+    while s.actor_index is not None:
+        s.check_or_call()
+    h = s.hole_cards[s.showdown_index]
+    arg = repr(h[0]) * 2
+    with warnings.catch_warnings():
+        warnings.simplefilter('error')
+        if s.can_show_or_muck_hole_cards(arg):
+            return f'can_show_or_muck_hole_cards({arg!r}) is True for a player holding {h} with warnings as errors'
+        if not s.can_show_or_muck_hole_cards(''.join(map(repr, h))):
+            return 'showing the hand actually held is refused'
+    return None
+
+
 if __name__ == '__main__':
-    names = sys.argv[1:] or ['F1', 'F2', 'F3', 'F4', 'F5', 'F6', 'F7', 'F8', 'F9', 'F10', 'F14', 'F15', 'F16', 'F17', 'F18']
+    names = sys.argv[1:] or ['F1', 'F2', 'F3', 'F4', 'F5', 'F6', 'F7', 'F8', 'F9', 'F10', 'F14', 'F15', 'F16', 'F17', 'F18', 'F19']
     bad = 0
     for n in names:
         try:
